@@ -66,7 +66,7 @@ fn c06_maybe_add_rule_3_residents() { maybe_add_rule(Some(3)); }
 fn c06_maybe_add_rule_any_residents() { maybe_add_rule(None); }
 
 fn maybe_add_rule(fixed_n: Option<usize>) {
-    unsafe { vs::MONITOR = true; }
+    unsafe { vs::MONITOR = true; vs::EDGES_ON = crate::cache::vk_cfg::LOCK_EDGES; }
     let stats = stk::vk_fresh();
     // in-flight generalisation (RI7): the total may include the weight of an entry whose map entry another
     // thread's delete has already removed but whose weight it has not subtracted yet
@@ -162,11 +162,14 @@ fn maybe_add_rule(fixed_n: Option<usize>) {
 /// hash of the batch is recorded exactly once (the sketch's access count grows by the batch length, each
 /// hash's estimate grows), then it parks; after shutdown() it terminates on the Shutdown event.
 #[kani::proof]
-#[kani::unwind(12)]
+#[kani::unwind(6)]
 fn c15_consumer_applies_each_batch_once() {
     let stats = stk::vk_fresh();
+    let (policy, rx) = vk_policy(cwk::vk_cache_weight(100, 0, stats.clone()), vk_plain_lfu(), stats.clone(), 2);
+    let mut aq: [Option<BufferEvent>; crossbeam_channel::QCAP] = [None, None, None, None];
+    vk_sender(&policy).vk_use_storage(&mut aq as *mut _);
     let slot = crate::cache::verif_rt::thread::spawned();
-    let policy = AdmissionPolicy::<u64>::with_channel_capacity(8, CacheWeightConfig::new(4, 2, 100), 2, stats.clone());
+    policy.start(rx);
     let h1: u64 = kani::any();
     let h2: u64 = kani::any();
     let e1 = policy.estimate(h1);
@@ -185,8 +188,11 @@ fn c15_consumer_applies_each_batch_once() {
 #[kani::unwind(12)]
 fn c13_consumer_stops_on_shutdown() {
     let stats = stk::vk_fresh();
+    let (policy, rx) = vk_policy(cwk::vk_cache_weight(100, 0, stats.clone()), vk_plain_lfu(), stats.clone(), 2);
+    let mut aq: [Option<BufferEvent>; crossbeam_channel::QCAP] = [None, None, None, None];
+    vk_sender(&policy).vk_use_storage(&mut aq as *mut _);
     let slot = crate::cache::verif_rt::thread::spawned();
-    let policy = AdmissionPolicy::<u64>::with_channel_capacity(8, CacheWeightConfig::new(4, 2, 100), 2, stats.clone());
+    policy.start(rx);
     policy.shutdown();
     assert!(!vk_keep_running(&policy), "C13: the consumer is told to stop");
     unsafe { vs::PARKED = false; }
@@ -197,5 +203,38 @@ fn c13_consumer_stops_on_shutdown() {
     assert!(stats.access_dropped() == 3 && stats.access_added() == 0, "C15: buffers offered to a stopped consumer are dropped and counted");
     policy.clear();
     assert!(stats.access_dropped() == 0, "C13: clear resets the statistics");
+    core::mem::forget(policy);
+}
+
+static mut G_SLOT: usize = 0;
+/// the consumer thread dequeues and applies whatever is queued right now
+fn interfering_consumer(_site: u32) { unsafe { vs::PARKED = false; crate::cache::verif_rt::thread::run(G_SLOT, 2); } }
+/// C15 / P4: the consumer thread picks up a delivered batch at a solver-chosen point WHILE another thread is
+/// inside estimate() (holding the sketch's read lock - e.g. the worker sampling victims).  Whenever the
+/// consumer has dequeued the batch, every hash of it is in the sketch: a batch counted as delivered is never
+/// skipped because the sketch was busy.  (With the real lock the consumer waits; the lock model makes that
+/// placement infeasible, so on code that waits this harness has nothing to observe.)
+#[kani::proof]
+#[kani::unwind(6)]
+fn c15_consumer_races_estimate() {
+    let stats = stk::vk_fresh();
+    // policy built from concrete parts (width-8 sketch, zero seeds); the REAL consumer closure is obtained from the
+    // real `start` on the policy's own receiver
+    let (policy, rx) = vk_policy(cwk::vk_cache_weight(100, 0, stats.clone()), vk_plain_lfu(), stats.clone(), 2);
+    // access-queue slots in typed stack memory (a heap slot would lose the length of the queued Vec of hashes)
+    let mut aq: [Option<BufferEvent>; crossbeam_channel::QCAP] = [None, None, None, None];
+    vk_sender(&policy).vk_use_storage(&mut aq as *mut _);
+    let slot = crate::cache::verif_rt::thread::spawned();
+    policy.start(rx);
+    policy.accept(BufferEvent::Full(vec![3, 4]));
+    unsafe { G_SLOT = slot; }
+    vs::set_hook(interfering_consumer, 1);
+    let _e = policy.estimate(3);
+    vs::clear_hook();
+    let dequeued = vk_sender(&policy).len() == 0;
+    if dequeued {
+        assert!(tlk::vk_total_increments(vk_lfu(&policy)) == stats.access_added(), "C15: every access counted as delivered reaches the sketch exactly once");
+    }
+    kani::cover!(dequeued, "opt: the consumer ran while estimate() was in progress");
     core::mem::forget(policy);
 }
